@@ -56,6 +56,7 @@ class Srv(rpyc.Service):
     def exposed_boombig2(self, key): self._hit(key); raise NeedsArg(BIG)
     def exposed_odd(self, key): self._hit(key); raise Odd("not an Exception subclass", key)
     def exposed_genexit(self, key): self._hit(key); raise GeneratorExit()
+    def exposed_egroup(self, key): self._hit(key); raise ExceptionGroup("several", [ValueError(key), KeyError(key)])
     def exposed_raise_(self, key, name): self._hit(key); raise {"KeyboardInterrupt": KeyboardInterrupt, "SystemExit": SystemExit}[name]("from the handler")
 
 
@@ -336,6 +337,18 @@ class _Chan:
     def fileno(self): return -1
 
 
+_RG = []
+
+
+def RESP_GUARDED():
+    if not _RG:
+        try:
+            _RG.append("response_decode_guarded : bool := true" in open(C.COQ + "/gen/Gen_dispatch.v").read())
+        except OSError:
+            _RG.append(True)
+    return _RG[0]
+
+
 def real_requester(evs):
     """the same history on a real Connection: [0, cb, ok] = _async_request with callback cb (send fails unless ok);
     [1, seq, is_exc] = a MSG_REPLY / MSG_EXCEPTION frame bearing seq is dispatched (known, unknown or already answered)"""
@@ -354,6 +367,14 @@ def real_requester(evs):
                     pass
                 finally:
                     ch.fail = False
+            elif e[0] == 2:
+                # alternately: an exception record of a class that cannot be re-created here / a reply naming an object this side never lent
+                bad = (consts.MSG_EXCEPTION, e[1], (("builtins", "ExceptionGroup"), (), (), "tb")) if e[1] % 2 == 0 else \
+                      (consts.MSG_REPLY, e[1], (consts.LABEL_LOCAL_REF, ("builtins.list", 1, 12345)))
+                try:
+                    conn._dispatch(brine.dump(bad))
+                except (TypeError, KeyError):
+                    pass            # unguarded tree: the decode error escapes _dispatch (the model says: nothing changes at the requester)
             else:
                 if e[2]:
                     args = vinegar.dump(ValueError, ValueError("x"), None, True, True)
@@ -410,6 +431,40 @@ def local_propagation(ctx, model, facts):
                 pass
 
 
+def undecodable_response(ctx):
+    """a response the REQUESTER cannot decode: the handler raises a built-in exception class whose constructor needs arguments
+    (ExceptionGroup: finding F10 of C09). Property: the response is delivered to its request, which gets an exception, and the
+    connection stays usable; nothing may be left registered."""
+    b = Bench()
+    try:
+        try:
+            b.client.root.egroup(1)
+            res = ("value", None)
+        except EOFError:
+            res = ("EOFError", None)
+        except BaseException as e:
+            res = ("exc", type(e).__name__)
+        left = sorted(b.client._request_callbacks)
+        try:
+            b.client.ping("x", timeout=2); usable = True
+        except BaseException:
+            usable = False
+        case = {"undecodable_response": "ExceptionGroup"}
+        ctx.case(("undecodable", "ExceptionGroup"), nontrivial=True, sample={"case": case, "requester": res, "callbacks_left": left, "usable": usable})
+        ctx.count("handler-raises:ExceptionGroup")
+        # which exception class arrives is C09's subject (ExceptionGroup is its known finding F10); here: the request completes with an exception
+        if res[0] != "exc" or left or not usable:
+            ctx.violation("exception-response-not-decodable-at-requester:ExceptionGroup", case, observed={"requester": res, "callbacks_left": left, "usable": usable},
+                          expected="the requester gets an exception, nothing stays registered, the connection stays usable",
+                          what="the exception response arrived but could not be rebuilt at the requester: its decode error escapes _dispatch before the callback is looked up, "
+                               "the request's callback stays registered for ever (a waiter served by another thread would hang)")
+    finally:
+        try:
+            b.client.close()
+        except Exception:
+            pass
+
+
 def run(ctx):
     model = C.Model("proto"); model = model if model.available() else None
     r = ctx.rng
@@ -427,8 +482,10 @@ def run(ctx):
             for _ in range(r.randint(1, 25)):
                 if r.random() < 0.5:
                     evs.append([0, issued + 100, r.random() < 0.85]); issued += 1
-                else:
+                elif r.random() < 0.8:
                     evs.append([1, r.randint(-1, issued + 1), r.random() < 0.3])
+                else:
+                    evs.append([2, r.randint(-1, issued + 1), RESP_GUARDED()])      # a response whose payload cannot be rebuilt here
             hist.append(evs)
         outs = model.batch([["requester", facts, evs] for evs in hist])
         for evs, m in zip(hist, outs):
@@ -449,6 +506,7 @@ def run(ctx):
                     ctx.violation("callback-invoked-twice", {"requester_events": evs}, observed=real["log"], expected="at most once per request", what="a duplicate response reached a request's callback again")
                 seen.add(cb)
     local_propagation(ctx, model, facts)
+    undecodable_response(ctx)
     for i in range(n):
         seed = r.randrange(10**9)
         import random
